@@ -79,6 +79,16 @@ theorem C17_lzma2_no_expansion_hashtable4 (c : W2.Cfg) (hc : W2.CfgOk c) (hdict 
     (W2.no_error_of_margin_I (by decide) c hc HT.HT4 (HT.Synced c) (HT.ht4_matcherInv c) _ (HT.synced_new c)
       (ps.map .write) (by intro call hc'; simp only [List.mem_map] at hc'; obtain ⟨p, _, rfl⟩ := hc'; simp) .close)
 
+/-- … and for the BinaryTree model -/
+theorem C17_lzma2_no_expansion_bintree (c : W2.Cfg) (hc : W2.CfgOk c) (hdict : 65536 ≤ c.dictCap)
+    (ps : List ByteArray) :
+    let w := (W2.run c BT.BT4 (W2.init c (BT.St.new c.dictCap c.bufSize)) (ps.map .write ++ [.close])).1
+    let n := (W2.payload (ps.map .write)).size
+    w.out.size ≤ n + n / 500 + 128 :=
+  W2.no_flush_size_bound_I c hc hdict BT.BT4 (BT.Synced c) (BT.bt4_matcherInv c) _ (BT.synced_new c) ps
+    (W2.no_error_of_margin_I (by decide) c hc BT.BT4 (BT.Synced c) (BT.bt4_matcherInv c) _ (BT.synced_new c)
+      (ps.map .write) (by intro call hc'; simp only [List.mem_map] at hc'; obtain ⟨p, _, rfl⟩ := hc'; simp) .close)
+
 example : Expansion.sumSz [(65000, 65536, true), (100, 40, false)] = 65003 + 46 := by decide
 
 /-! ### clause 1 — "a run of n equal bytes compresses to at most n/500 bytes" — as a theorem (partial in the constant)
